@@ -328,14 +328,14 @@ def oracle_pyser(n: int, ops: typing.List[str]) -> typing.Optional[str]:
         elif c in ('ub', 'ab'):
             ok = put(bytes_bits(unhex(t[1])), c == 'ab')
         elif c in ('au', 'uu'):
-            v, b = int(t[1]), int(t[2])
-            ok = b >= 1 and v >= 0 and put(int_bits(v, b), c == 'au')
+            v, b = int(t[1], 0), int(t[2])
+            ok = b >= 1 and v >= 0 and put(int_bits(v, b), c == 'au')          # implicit truncation: value mod 2^b
         elif c in ('as', 'us'):
             v, b = int(t[1]), int(t[2])
             ok = b >= 2 and -(1 << (b - 1)) <= v < (1 << (b - 1)) and put(int_bits(v % (1 << b), b), c == 'as')
         elif c in ('u8', 'u16', 'u32', 'u64'):
-            w, v = int(c[1:]), int(t[1])
-            ok = 0 <= v < (1 << w) and put(int_bits(v, w), True)
+            w, v = int(c[1:]), int(t[1], 0)
+            ok = 0 <= v < ((1 << w) if w == 8 else (1 << 200)) and put(int_bits(v, w), True)     # u16/u32/u64 truncate, u8 rejects
         elif c in ('i8', 'i16', 'i32', 'i64'):
             w, v = int(c[1:]), int(t[1])
             ok = -(1 << (w - 1)) <= v < (1 << (w - 1)) and put(int_bits(v % (1 << w), w), True)
@@ -914,6 +914,19 @@ def gen_py_cases(rng, tier: str) -> typing.List[str]:
                     L.append('pydes %s %s' % (hx(x.to_bytes(size, 'little')), ';'.join(pre + ['us:%d' % b, 'rem'])))
                     if off % 8 == 0:
                         L.append('pydes %s %s' % (hx(x.to_bytes(size, 'little')), ';'.join(pre + ['as:%d' % b, 'rem'])))
+    # over-range values (the documented implicit truncation): every offset 0..23 x every bit length 1..64 x values wider than the
+    # field, each followed by further unaligned writes (which rely on the bits after the cursor being zero)
+    for off in range(24):
+        for b in range(1, 65):
+            wide = [(1 << b), (1 << b) | rand_bits_value(rng, b), (1 << (b + 1 + rng.randrange(0, 7))) - 1, (1 << 71) - 1 - rng.getrandbits(40)]
+            tail = ['uu:%d:%d' % (rng.getrandbits(5), 5), 'bit:1', 'ub:%s' % hx(content(rng, 2, 2)), 'uu:0x%x:%d' % ((1 << 70) + 5, 3)]
+            for v in wide:
+                L.append('pyser 32 ' + ';'.join(prefix(off) + ['uu:0x%x:%d' % (v, b)] + tail))
+                if off % 8 == 0:
+                    L.append('pyser 32 ' + ';'.join(prefix(off) + ['au:0x%x:%d' % (v, b)] + tail))
+        if off % 8 == 0:
+            for w in (16, 32, 64):
+                L.append('pyser 32 ' + ';'.join(prefix(off) + ['u%d:0x%x' % (w, (1 << (w + 3)) + rng.getrandbits(w)), 'uu:3:2', 'bit:1']))
     # degenerate bit lengths: the asserts of the source raise (compared with the model only)
     for off in (0, 5, 8):
         for op in ('uu:5:0', 'us:1:1', 'us:0:0', 'au:5:0', 'as:1:1'):
@@ -1240,7 +1253,7 @@ def main(chk: core.Check, replay: typing.Optional[str] = None) -> int:
     t0 = time.time()
     timing = {}
     # 1. proof obligations
-    res = core.coq_check('C14', [])
+    res = core.coq_check('C14', ['pin_c14py'])
     timing['coq_s'] = round(time.time() - t0, 1)
     chk.proof_coverage(res, [
         'hand models coq/theories/Prims/CPrims.v (C header), CppPrims.v (C++ bitspan), PyPrims.v (Python Serializer/Deserializer), F16.v '
@@ -1273,14 +1286,14 @@ def main(chk: core.Check, replay: typing.Optional[str] = None) -> int:
     for e in errors + cpp_errors + py_errors:
         broken.append('implementation build: ' + e[:600])
 
-    # known finding: offset wrap in the capacity check of SetUxx (probed on the real builds; both states are fine)
+    # offset wrap in the capacity check of SetUxx (F-SETUXX-OFFSET-WRAP, fixed in /repo ba46e0a): the witness is probed on the real
+    # builds in a process of its own on every run
     ensure_known_loaded(chk)
     wrap = probe_offset_wrap(chk, dict(targets, **cpp_targets))
     wrap_live = any(v.startswith('reproduces') for v in wrap.values())
     if wrap_live and chk.is_known(WRAP_ID):
         chk.report_known(WRAP_ID)
-    elif wrap_live:
-        broken.append('offset wrap of SetUxx reproduces but %s is not listed as known' % WRAP_ID)
+    wrap_regression = wrap_live and not chk.is_known(WRAP_ID)     # fixed in /repo ba46e0a: if it comes back it is a violation
     timing['builds_s'] = round(time.time() - t0 - timing['coq_s'], 1)
     t1 = time.time()
     # 3. cases
@@ -1393,6 +1406,11 @@ def main(chk: core.Check, replay: typing.Optional[str] = None) -> int:
         if 'x' in w and not judge_f16_pack(w['x'], str(w['c'])):
             oracle_bad.append({'target': 'c_any_noasserts (native sweep)', 'line': 'f16p %d' % w['x'], 'implementation': str(w['c']),
                                'expected_by_property': describe_f16_pack(w['x'])})
+    if wrap_regression:
+        for name, v in wrap.items():
+            if v.startswith('reproduces'):
+                oracle_bad.append({'target': name, 'line': 'su 0000 2 18446744073709551608 255 16', 'implementation': v,
+                                   'expected_by_property': '-3 0000 (too-small buffer reported, nothing written)'})
     if native['c_vs_cpp_mismatch']:
         model_bad.append({'target': 'cpp_cpp14_noasserts vs c_any_noasserts (native sweep)', 'line': 'f16pr %(start)d %(count)d 1' % native['c_vs_cpp_mismatch'][0],
                           'model': native['c_vs_cpp_mismatch'][0]['c_digest'], 'implementation': native['c_vs_cpp_mismatch'][0]['cpp_digest'],
